@@ -252,6 +252,8 @@ def judge(case, impl_res, ans):
                     'of the new recording: %s' % rw)
         if ok.get('iter_second_pass_same') is False:
             return 'SPEC: a second pass of iter_chunks over the same reader differs from the first'
+        if m.get('reader') != m['model']:
+            return 'MACHINERY: readerChunkBoundsFl differs from getChunkBounds with chunkSizeFl'
         if ok['bounds'] != m['model'] or ok['iter'] != m['iter'] or ok['part_bounds'] != m['part_bounds']:
             return 'CORR: reader bounds/iterator/part bounds differ from the model (chunk length of the model: %s)' % m.get('cs')
         return None
@@ -306,6 +308,7 @@ def tally(rep, case, impl_res, ans):
         x = 600 * Fraction(case['sr'])
         kind = 'whole' if x.denominator == 1 else 'tie(.5)' if x.denominator == 2 else 'fractional'
         mm = ans['ok']
+        rep.count('float product 600*rate: %s' % ('exact' if mm.get('product_is_double') else 'rounded'))
         if mm.get('inrange') is False:
             kind = 'float product outside the normal range (not judged)'
         elif mm.get('exact_cs') is not None and mm.get('exact_cs') != mm.get('cs'):
